@@ -170,7 +170,7 @@ def run_part(pid, part, tier, tmp, t_end):
     exe = build.binpath(variant, part['harness'])
     n = cfg.get('shards', NCPU)
     env = dict(os.environ)
-    env.setdefault('ASAN_OPTIONS', 'detect_leaks=0:halt_on_error=1:abort_on_error=0:detect_stack_use_after_return=0')
+    env.setdefault('ASAN_OPTIONS', 'detect_leaks=0:halt_on_error=1:abort_on_error=0:detect_stack_use_after_return=0:quarantine_size_mb=16')
     env.setdefault('UBSAN_OPTIONS', 'print_stacktrace=1:halt_on_error=1')
     env['TZ'] = 'UTC'
     env['VERIF_REPO'] = build.REPO
@@ -336,7 +336,7 @@ def replay(pid, path):
         print('BUILD FAILED:\n' + str(e))
         return 2
     env = dict(os.environ)
-    env.setdefault('ASAN_OPTIONS', 'detect_leaks=0:halt_on_error=1')
+    env.setdefault('ASAN_OPTIONS', 'detect_leaks=0:halt_on_error=1:quarantine_size_mb=16')
     env.setdefault('UBSAN_OPTIONS', 'print_stacktrace=1:halt_on_error=1')
     env['TZ'] = 'UTC'
     env['VERIF_REPO'] = build.REPO
